@@ -40,6 +40,7 @@ VARIABLES l,        \* next line to consume
           faulted,  \* requests that were told of a store failure
           sends,    \* <<task, counter>> -> [dt, outcome] of the last hand-off
           lapsed,   \* set of <<task, counter>> whose lease/time-out was reached
+          plapsed,  \* lapsed before the last event
           claims,   \* set of <<task, counter>> that entered CLAIMED
           seen,     \* promise id -> first terminal Final() observed in a reply
           cfg,      \* configuration of the run
@@ -53,7 +54,7 @@ VARIABLES l,        \* next line to consume
                     \* every state since the first page, done]
           chk       \* verdicts about the last event (see Check*)
 
-vars == <<l, db, pdb, exp, now, reqs, cand, snaps, faulted, sends, lapsed, claims, seen, cfg, path, cyc, q0, rerr, idc, trav, chk>>
+vars == <<l, db, pdb, exp, now, reqs, cand, snaps, faulted, sends, lapsed, plapsed, claims, seen, cfg, path, cyc, q0, rerr, idc, trav, chk>>
 
 NoChk == [tables |-> {}, who |-> "", owners |-> {}, resp |-> "", why |-> "", drift |-> "", dup |-> {}, lint |-> {},
           dupRoot |-> FALSE, travDup |-> FALSE, travMissing |-> {}, cursor |-> TRUE]
@@ -86,6 +87,9 @@ AddTo(f, k, x) == Put(f, k, GetOr(f, k, {}) \cup {x})
 (***************************************************************************)
 LapsedIn(S, t) ==
   {<<x, S.tasks[x].counter>> : x \in ExpirableTasks(S, TaskBusy, t)}
+RECURSIVE LapsedAlong(_, _, _, _)
+LapsedAlong(lp, pth, i, t) ==
+  IF i >= Len(pth) THEN lp ELSE LapsedAlong(NextLapsed(lp, pth[i], pth[i + 1], t), pth, i + 1, t)
 
 (***************************************************************************)
 (* One transaction of a commit, folded at level A.                         *)
@@ -100,11 +104,15 @@ SweepFold(S, cmds, i, tx, bg) ==
                  ELSE LET x == c.id
                           key == <<x, S.tasks[x].counter>> IN
                    IF bg = "TimeoutTasks"
-                   THEN IF S.tasks[x].state \in TaskBusy /\ key \in lapsed
-                        THEN ExpireTask(S, x, tx.dt) ELSE S
+                   THEN LET restarted == S.tasks[x].state = T_CLAIMED
+                                          /\ (~ Has(db.tasks, x) \/ db.tasks[x].state # T_CLAIMED)
+                            due == IF restarted THEN key \in LapsedAt(S, now)
+                                   ELSE key \in lapsed \cup LapsedAt(S, now)
+                        IN IF S.tasks[x].state \in TaskBusy /\ due
+                           THEN ExpireTask(S, x, tx.dt) ELSE S
                    ELSE \* EnqueueTasks
                         IF S.tasks[x].state # T_INIT THEN S
-                        ELSE IF key \in DOMAIN sends
+                        ELSE IF key \in DOMAIN sends /\ sends[key].o = tx.o   \* a hand-off of this very cycle
                         THEN Dispatch(S, x, IF sends[key].outcome = "ok" THEN "ok" ELSE "fail",
                                       cfg.taskEnqueueDelay, sends[key].dt)
                         ELSE IF tx.dt >= S.tasks[x].timeout
@@ -241,7 +249,7 @@ Init ==
   /\ TLCSet(42, {})
   /\ l = 1 /\ db = EmptyDB /\ pdb = EmptyDB /\ exp = EmptyDB /\ now = 0
   /\ reqs = <<>> /\ cand = <<>> /\ snaps = <<>> /\ faulted = {} /\ sends = <<>>
-  /\ lapsed = {} /\ claims = {} /\ seen = <<>> /\ cfg = <<>> /\ chk = NoChk
+  /\ lapsed = {} /\ plapsed = {} /\ claims = {} /\ seen = <<>> /\ cfg = <<>> /\ chk = NoChk
   /\ path = <<EmptyDB>> /\ cyc = <<>> /\ q0 = [t |-> -1, db |-> EmptyDB] /\ rerr = {} /\ idc = <<>> /\ trav = <<>>
 
 Consume == l <= Len(TraceLog) /\ l' = l + 1
@@ -250,18 +258,18 @@ EReset ==
   /\ Consume /\ Ev.e = "reset"
   /\ db' = EmptyDB /\ pdb' = EmptyDB /\ exp' = EmptyDB /\ now' = Ev.t
   /\ reqs' = <<>> /\ cand' = <<>> /\ snaps' = <<>> /\ faulted' = {} /\ sends' = <<>>
-  /\ lapsed' = {} /\ claims' = {} /\ seen' = <<>> /\ cfg' = Ev.cfg /\ chk' = NoChk
+  /\ lapsed' = {} /\ plapsed' = {} /\ claims' = {} /\ seen' = <<>> /\ cfg' = Ev.cfg /\ chk' = NoChk
   /\ path' = <<EmptyDB>> /\ cyc' = <<>> /\ q0' = [t |-> -1, db |-> EmptyDB] /\ rerr' = {} /\ idc' = <<>> /\ trav' = <<>>
 
 ESubmit ==
   /\ Consume /\ Ev.e = "submit"
   /\ reqs' = Put(reqs, Ev.r, [kind |-> Ev.kind, args |-> Ev.args, t |-> Ev.t, l |-> l, trav |-> Ev.trav, page |-> Ev.page])
   /\ pdb' = db /\ chk' = NoChk /\ path' = <<db>>
-  /\ UNCHANGED <<db, exp, now, cand, snaps, faulted, sends, lapsed, claims, seen, cfg, cyc, q0, rerr, idc, trav>>
+  /\ UNCHANGED <<db, exp, now, cand, snaps, faulted, sends, lapsed, plapsed, claims, seen, cfg, cyc, q0, rerr, idc, trav>>
 
 ETick ==
   /\ Consume /\ Ev.e = "tick"
-  /\ now' = Ev.t /\ lapsed' = lapsed \cup LapsedIn(db, Ev.t)
+  /\ now' = Ev.t /\ lapsed' = lapsed \cup LapsedIn(db, Ev.t) /\ plapsed' = lapsed
   /\ pdb' = db /\ chk' = NoChk /\ path' = <<db>>
   /\ UNCHANGED <<db, exp, reqs, cand, snaps, faulted, sends, claims, seen, cfg, cyc, q0, rerr, idc, trav>>
 
@@ -272,7 +280,7 @@ NewClaims(P, Q) ==
 
 ECommit ==
   /\ Consume /\ Ev.e = "commit"
-  /\ LET failedPre == Ev.fail = "pre" \/ Ev.err
+  /\ LET failedPre == Ev.fail = "pre" \/ Ev.err   \* (a "busy" commit is an ordinary store error: err)
          post == PostOf(Ev, db)
          f == IF failedPre THEN [S |-> db, cand |-> cand, snaps |-> snaps, drift |-> "", path |-> <<db>>]
               ELSE FoldTxs(db, Ev.txs, 1, cand, snaps, post, "", <<db>>)
@@ -281,7 +289,8 @@ ECommit ==
         /\ db' = post /\ pdb' = db
         /\ cand' = f.cand /\ snaps' = f.snaps
         /\ faulted' = IF Ev.fail # "none" \/ Ev.err THEN faulted \cup OwnerIds(Ev.txs) ELSE faulted
-        /\ lapsed' = lapsed \cup LapsedIn(post, now)
+        /\ plapsed' = lapsed
+        /\ lapsed' = LapsedAlong(lapsed, IF DiffTables(E, post) = {} /\ Len(f.path) >= 2 THEN Append(SubSeq(f.path, 1, Len(f.path) - 1), post) ELSE <<db, post>>, 1, now)
         /\ claims' = claims \cup NewClaims(db, post)
         /\ path' = IF DiffTables(E, post) = {} /\ Len(f.path) >= 2
                     THEN [i \in DOMAIN f.path |-> IF i = Len(f.path) THEN post ELSE f.path[i]]
@@ -379,41 +388,41 @@ ERespond ==
                       IF id \in DOMAIN seen THEN seen[id]
                       ELSE [final |-> Final(CHOOSE b \in finals : b.id = id), l |-> l]]
   /\ pdb' = db /\ path' = <<db>>
-  /\ UNCHANGED <<db, exp, now, reqs, cand, snaps, faulted, sends, lapsed, claims, cfg, cyc, q0, rerr, idc>>
+  /\ UNCHANGED <<db, exp, now, reqs, cand, snaps, faulted, sends, lapsed, plapsed, claims, cfg, cyc, q0, rerr, idc>>
 
 ESend ==
   /\ Consume /\ Ev.e = "send"
-  /\ sends' = Put(sends, <<Ev.task, Ev.counter>>, [dt |-> Ev.dt, outcome |-> Ev.outcome, t |-> Ev.t])
+  /\ sends' = Put(sends, <<Ev.task, Ev.counter>>, [dt |-> Ev.dt, outcome |-> Ev.outcome, t |-> Ev.t, o |-> Ev.o])
   /\ LET root == IF Has(db.tasks, Ev.task) THEN db.tasks[Ev.task].rootId ELSE "?" IN
      /\ cyc' = AddTo(cyc, Ev.o, root)
      /\ chk' = [NoChk EXCEPT !.dupRoot = root \in GetOr(cyc, Ev.o, {})]
   /\ pdb' = db /\ path' = <<db>>
-  /\ UNCHANGED <<db, exp, now, reqs, cand, snaps, faulted, lapsed, claims, seen, cfg, q0, rerr, idc, trav>>
+  /\ UNCHANGED <<db, exp, now, reqs, cand, snaps, faulted, lapsed, plapsed, claims, seen, cfg, q0, rerr, idc, trav>>
 
 ERoute ==
   /\ Consume /\ Ev.e = "route"
   /\ rerr' = IF Ev.err THEN rerr \cup {Ev.o} ELSE rerr
   /\ pdb' = db /\ chk' = NoChk /\ path' = <<db>>
-  /\ UNCHANGED <<db, exp, now, reqs, cand, snaps, faulted, sends, lapsed, claims, seen, cfg, cyc, q0, idc, trav>>
+  /\ UNCHANGED <<db, exp, now, reqs, cand, snaps, faulted, sends, lapsed, plapsed, claims, seen, cfg, cyc, q0, idc, trav>>
 
 \* the process dies: in-flight requests lose their responses, the database stays
 ECrash ==
   /\ Consume /\ Ev.e = "crash"
   /\ pdb' = db /\ chk' = NoChk /\ path' = <<db>>
-  /\ UNCHANGED <<db, exp, now, reqs, cand, snaps, faulted, sends, lapsed, claims, seen, cfg, cyc, q0, rerr, idc, trav>>
+  /\ UNCHANGED <<db, exp, now, reqs, cand, snaps, faulted, sends, lapsed, plapsed, claims, seen, cfg, cyc, q0, rerr, idc, trav>>
 
 EChars ==
   /\ Consume /\ Ev.e = "chars"
   /\ idc' = [id \in (DOMAIN idc) \cup (DOMAIN Ev.ids) |-> IF id \in DOMAIN Ev.ids THEN Ev.ids[id] ELSE idc[id]]
   /\ pdb' = db /\ chk' = NoChk /\ path' = <<db>>
-  /\ UNCHANGED <<db, exp, now, reqs, cand, snaps, faulted, sends, lapsed, claims, seen, cfg, cyc, q0, rerr, trav>>
+  /\ UNCHANGED <<db, exp, now, reqs, cand, snaps, faulted, sends, lapsed, plapsed, claims, seen, cfg, cyc, q0, rerr, trav>>
 
 \* a cursor was handed to the API layer for decoding
 ECursor ==
   /\ Consume /\ Ev.e = "cursor"
   /\ chk' = [NoChk EXCEPT !.cursor = (Ev.accepted = ~ Ev.forged)]
   /\ pdb' = db /\ path' = <<db>>
-  /\ UNCHANGED <<db, exp, now, reqs, cand, snaps, faulted, sends, lapsed, claims, seen, cfg, cyc, q0, rerr, idc, trav>>
+  /\ UNCHANGED <<db, exp, now, reqs, cand, snaps, faulted, sends, lapsed, plapsed, claims, seen, cfg, cyc, q0, rerr, idc, trav>>
 
 \* the clients have stopped and every request has been answered: from here on only the
 \* background coroutines run (C11)
@@ -421,7 +430,7 @@ EQuiesce ==
   /\ Consume /\ Ev.e = "quiesce"
   /\ q0' = [t |-> Ev.t, db |-> db]
   /\ pdb' = db /\ chk' = NoChk /\ path' = <<db>>
-  /\ UNCHANGED <<db, exp, now, reqs, cand, snaps, faulted, sends, lapsed, claims, seen, cfg, cyc, rerr, idc, trav>>
+  /\ UNCHANGED <<db, exp, now, reqs, cand, snaps, faulted, sends, lapsed, plapsed, claims, seen, cfg, cyc, rerr, idc, trav>>
 
 \* restart / end / observe carry a fresh projection: it must be the database we know
 EObserve ==
@@ -429,13 +438,13 @@ EObserve ==
   /\ pdb' = db /\ db' = PostOf(Ev, db) /\ exp' = db
   /\ chk' = [NoChk EXCEPT !.tables = DiffTables(db, PostOf(Ev, db)), !.who = Ev.e]
   /\ path' = <<db, PostOf(Ev, db)>>
-  /\ UNCHANGED <<now, reqs, cand, snaps, faulted, sends, lapsed, claims, seen, cfg, cyc, q0, rerr, idc, trav>>
+  /\ UNCHANGED <<now, reqs, cand, snaps, faulted, sends, lapsed, plapsed, claims, seen, cfg, cyc, q0, rerr, idc, trav>>
 
 EOther ==
   /\ Consume /\ Ev.e \notin {"reset", "submit", "tick", "commit", "respond", "send", "route", "crash",
                             "restart", "end", "observe", "quiesce", "chars", "cursor"}
   /\ pdb' = db /\ chk' = NoChk /\ path' = <<db>>
-  /\ UNCHANGED <<db, exp, now, reqs, cand, snaps, faulted, sends, lapsed, claims, seen, cfg, cyc, q0, rerr, idc, trav>>
+  /\ UNCHANGED <<db, exp, now, reqs, cand, snaps, faulted, sends, lapsed, plapsed, claims, seen, cfg, cyc, q0, rerr, idc, trav>>
 
 Next == EChars \/ ECursor \/ EReset \/ ESubmit \/ ETick \/ ECommit \/ ERespond \/ ESend \/ ERoute \/ ECrash \/ EQuiesce \/ EObserve \/ EOther
 
@@ -534,6 +543,8 @@ MutationKinds == {"CreatePromise", "CreatePromiseAndTask", "CompletePromise", "C
                   "ClaimTask", "CompleteTask", "HeartbeatTasks", "HeartbeatLocks"}
 \* the database found after a restart is the last committed one, whole
 C06_RestartKeepsState == Last.e \in {"restart", "end", "observe"} => chk.tables = {}
+\* what the store worker reported as done is what another connection reads
+C06_CommittedMeansStored == IsCommit => chk.tables = {}
 \* an acknowledgement is only given for an effect that was committed
 C06_AckedIsCommitted ==
   (IsRespond /\ reqs[Last.r].kind \in MutationKinds /\ ~ Last.err) => chk.resp = ""
@@ -544,7 +555,9 @@ C07_CountersNeverDecreaseT == Steps(C07_CountersNeverDecrease)
 C07_FinishedIsAbsorbingT == Steps(C07_FinishedIsAbsorbing)
 C07_TasksNeverDisappearT == Steps(C07_TasksNeverDisappear)
 C07_ClaimGuardT == Steps(C07_ClaimGuard)
-C07_LeaseHonouredT == \A i \in 1..(Len(path) - 1) : C07_LeaseHonoured(path[i], path[i + 1], lapsed)
+C07_LeaseHonouredT ==
+  \A i \in 1..(Len(path) - 1) :
+     C07_LeaseHonoured(path[i], path[i + 1], LapsedAlong(plapsed, SubSeq(path, 1, i), 1, now) \cup LapsedAt(path[i], now))
 C07_FencingOnReclaimT == Steps(C07_FencingOnReclaim)
 \* no pair <<task, counter>> enters CLAIMED twice
 C07_OneClaimPerCounter == IsCommit => chk.dup = {}
